@@ -119,6 +119,10 @@ func (e *Engine) verifyFunc(name, prop string, safety bool) *FuncResult {
 		return res
 	}
 	fname := e.fnName(fn)
+	info := &replayInfo{fn: fn, entry: fr.entry, results: results, exit: out, run: r}
+	for _, p := range fn.Params {
+		info.params = append(info.params, fr.vals[p])
+	}
 	// postconditions
 	names := map[string]Value{}
 	rn := resultNames(fn.Signature)
@@ -180,6 +184,8 @@ func (e *Engine) verifyFunc(name, prop string, safety bool) *FuncResult {
 		}
 		o.Script = r.ctx.query([]string{o.Guard, not(o.Goal)}, nil)
 		o.Alt = r.ctx.queryMode([]string{o.Guard, not(o.Goal)}, nil, 1)
+		o.Cand = r.ctx.queryMode([]string{o.Guard, not(o.Goal)}, nil, 2)
+		o.info = info
 	}
 	return res
 }
